@@ -96,6 +96,32 @@ func R11HTTPProfile(c *Ctx) {
 		if rejF {
 			rejVal = !truth
 		}
+		// the checks may be delegated to helpers of this package: a mismatch finder over the configured headers,
+		// a find-index (or slices.Contains) over the configured URIs
+		if field, rejectOn, ok := c.helperAdmission(cond, isCfg); ok {
+			pi := 0
+			if rejT {
+				pi = 1
+			}
+			name := map[string]string{"Headers": "request-header check", "Uris": "URI check"}[field]
+			if rejectOn == rejVal {
+				if field == "Headers" {
+					f.hdr = true
+				} else {
+					f.uri = true
+				}
+				decs = append(decs, decisive{iff, pi, field, name})
+				c.R.Ok(rule, fname, name, c.pos(iff.Pos()), "delegated to a helper whose answer is decided by the comparison of the request with the configured values; the failing answer reaches only the decoy", true)
+			} else {
+				if field == "Headers" {
+					f.hdr = true
+				} else {
+					f.uri = true
+				}
+				c.R.Bad(rule, fname, name, c.pos(iff.Pos()), "the helper's answer is used with the wrong polarity: matching requests are rejected and the others admitted")
+			}
+			continue
+		}
 		switch x := cond.(type) {
 		case *ssa.BinOp:
 			// User-Agent: h.Config.UserAgent != ctx.Request.UserAgent()  → reject
@@ -498,29 +524,35 @@ func R11NoCarry(c *Ctx) {
 		c.R.Anchor(rule, "handlers.(*HTTP).request")
 		return
 	}
-	loops := naturalLoops(fn)
 	n := 0
-	for _, b := range fn.Blocks {
-		if len(b.Instrs) == 0 {
+	// the check loops may live in helpers of this package that do not touch the teamserver or the agent protocol
+	for _, lf := range HelperClosure(fn, 2) {
+		if lf != fn && reachesProtocol(lf) {
 			continue
 		}
-		iff, ok := b.Instrs[len(b.Instrs)-1].(*ssa.If)
-		if !ok {
-			continue
-		}
-		for _, l := range loops {
-			if !l.body[b] || b == l.header {
+		loops := naturalLoops(lf)
+		for _, b := range lf.Blocks {
+			if len(b.Instrs) == 0 {
 				continue
 			}
-			n++
-			pos := iff.Cond.Pos()
-			if !pos.IsValid() {
-				pos = fn.Pos()
+			iff, ok := b.Instrs[len(b.Instrs)-1].(*ssa.If)
+			if !ok {
+				continue
 			}
-			if carried := carriedInto(iff.Cond, l); carried != nil {
-				c.R.Bad(rule, FuncShort(fn), "branch inside a check loop is iteration-local", c.pos(pos), "this test depends on "+DescribeValue(carried)+", which is carried over from earlier iterations of the loop: once it flips, the headers/URIs that follow are judged differently (e.g. never checked)")
-			} else {
-				c.R.Ok(rule, FuncShort(fn), "branch inside a check loop is iteration-local", c.pos(pos), "depends on the current element and loop-invariant values only", true)
+			for _, l := range loops {
+				if !l.body[b] || b == l.header {
+					continue
+				}
+				n++
+				pos := iff.Cond.Pos()
+				if !pos.IsValid() {
+					pos = lf.Pos()
+				}
+				if carried := carriedInto(iff.Cond, l); carried != nil {
+					c.R.Bad(rule, FuncShort(lf), "branch inside a check loop is iteration-local", c.pos(pos), "this test depends on "+DescribeValue(carried)+", which is carried over from earlier iterations of the loop: once it flips, the headers/URIs that follow are judged differently (e.g. never checked)")
+				} else {
+					c.R.Ok(rule, FuncShort(lf), "branch inside a check loop is iteration-local", c.pos(pos), "depends on the current element and loop-invariant values only", true)
+				}
 			}
 		}
 	}
@@ -783,4 +815,193 @@ func R11ResponseHeaders(c *Ctx) {
 	} else {
 		c.R.Bad(rule, FuncShort(fn), construct, c.pos(parse.Pos()), "the request is handed to the agent protocol on a path that has not set the configured response headers: the answer to an admitted request (at least the one after a parse failure) goes out without them")
 	}
+}
+
+// helperAdmission recognises an admission test delegated to a helper. It returns the configuration field the test
+// is about ("Headers" or "Uris") and the truth value of cond on which the request must be rejected.
+func (c *Ctx) helperAdmission(cond ssa.Value, isCfg func(ssa.Value, string) bool) (field string, rejectOn bool, ok bool) {
+	isURI := func(v ssa.Value) bool { return DerivesFrom(v, IsFieldLoad("net/http.Request", "RequestURI")) }
+	// (a) URIs: comparison of a find-index result with its not-found value, or slices.Contains
+	if bo, isB := cond.(*ssa.BinOp); isB {
+		for _, pair := range [][2]ssa.Value{{bo.X, bo.Y}, {bo.Y, bo.X}} {
+			call, isCall := pair[0].(*ssa.Call)
+			k, isC := ConstInt(pair[1])
+			if !isCall || !isC {
+				continue
+			}
+			h := call.Call.StaticCallee()
+			sp, kp, nf, okIdx := elemIndexSummary(h)
+			if !okIdx || sp >= len(call.Call.Args) || kp >= len(call.Call.Args) {
+				continue
+			}
+			if !isCfg(call.Call.Args[sp], "Uris") || !isURI(call.Call.Args[kp]) {
+				continue
+			}
+			left := pair[0] == bo.X
+			holds := func(x int64) bool {
+				a, b := x, k
+				if !left {
+					a, b = k, x
+				}
+				switch bo.Op {
+				case token.EQL:
+					return a == b
+				case token.NEQ:
+					return a != b
+				case token.LSS:
+					return a < b
+				case token.LEQ:
+					return a <= b
+				case token.GTR:
+					return a > b
+				case token.GEQ:
+					return a >= b
+				}
+				return false
+			}
+			// the comparison must separate not-found from every position
+			if holds(nf) != holds(0) && holds(0) == holds(1<<20) {
+				return "Uris", holds(nf), true
+			}
+		}
+	}
+	if call, isCall := cond.(*ssa.Call); isCall && len(call.Call.Args) == 2 {
+		if n := CalleeName(call); strings.HasPrefix(n, "slices.Contains") && isCfg(call.Call.Args[0], "Uris") && isURI(call.Call.Args[1]) {
+			return "Uris", false, true
+		}
+	}
+	// (b) headers: a boolean answer (possibly one of several results) of a helper that says "mismatch" only under a
+	// differing comparison of a received header with a value cut from its list parameter
+	var call *ssa.Call
+	idx := 0
+	switch x := cond.(type) {
+	case *ssa.Call:
+		call = x
+	case *ssa.Extract:
+		call, _ = x.Tuple.(*ssa.Call)
+		idx = x.Index
+	}
+	if call == nil {
+		return "", false, false
+	}
+	h := call.Call.StaticCallee()
+	if h == nil || h.Blocks == nil || FuncPkgPathOf(h) != PkgHandlers {
+		return "", false, false
+	}
+	listParam := -1
+	for i, a := range call.Call.Args {
+		if isCfg(a, "Headers") && i < len(h.Params) {
+			listParam = i
+		}
+	}
+	if listParam < 0 {
+		return "", false, false
+	}
+	fromList := func(v ssa.Value) bool {
+		return DerivesFrom(v, func(w ssa.Value) bool { return w == ssa.Value(h.Params[listParam]) })
+	}
+	isGet := func(v ssa.Value) bool {
+		return DerivesFrom(v, func(w ssa.Value) bool {
+			cl, ok := w.(*ssa.Call)
+			return ok && strings.HasSuffix(CalleeName(cl), ".Get")
+		})
+	}
+	nTrue, nFalse := 0, 0
+	for _, b := range h.Blocks {
+		ret, isRet := b.Instrs[len(b.Instrs)-1].(*ssa.Return)
+		if !isRet || idx >= len(ret.Results) {
+			continue
+		}
+		r := ret.Results[idx]
+		switch {
+		case isBoolConst(r, true):
+			under := false
+			for _, fct := range FactsAt(b) {
+				bo, ok := fct.Cond.(*ssa.BinOp)
+				if !ok || !((bo.Op == token.NEQ) == fct.Truth) || (bo.Op != token.NEQ && bo.Op != token.EQL) {
+					continue
+				}
+				if (isGet(bo.X) && fromList(bo.Y)) || (isGet(bo.Y) && fromList(bo.X)) {
+					under = true
+				}
+			}
+			if !under {
+				return "", false, false
+			}
+			nTrue++
+		case isBoolConst(r, false):
+			nFalse++
+		default:
+			return "", false, false
+		}
+	}
+	if nTrue == 0 || nFalse == 0 {
+		return "", false, false
+	}
+	return "Headers", true, true
+}
+
+// elemIndexSummary: h is `for i := range s { if s[i] == k { return i } }; return NOTFOUND` over a slice parameter s and
+// a parameter k (NOTFOUND a negative constant).
+func elemIndexSummary(h *ssa.Function) (sliceParam, keyParam int, notFound int64, ok bool) {
+	if h == nil || h.Blocks == nil || h.Signature.Results().Len() != 1 || !isIntType(h.Signature.Results().At(0).Type()) {
+		return 0, 0, 0, false
+	}
+	pidx := func(v ssa.Value) int {
+		for i, p := range h.Params {
+			if ssa.Value(p) == v {
+				return i
+			}
+		}
+		return -1
+	}
+	sliceParam, keyParam = -1, -1
+	haveNF := false
+	for _, b := range h.Blocks {
+		ret, isRet := b.Instrs[len(b.Instrs)-1].(*ssa.Return)
+		if !isRet {
+			continue
+		}
+		v := ret.Results[0]
+		if k, isC := ConstInt(v); isC {
+			if k >= 0 || (haveNF && k != notFound) {
+				return 0, 0, 0, false
+			}
+			notFound, haveNF = k, true
+			continue
+		}
+		found := false
+		for _, f := range FactsAt(b) {
+			bo, isB := f.Cond.(*ssa.BinOp)
+			if !isB || !((bo.Op == token.EQL) == f.Truth) || (bo.Op != token.EQL && bo.Op != token.NEQ) {
+				continue
+			}
+			for _, pr := range [][2]ssa.Value{{bo.X, bo.Y}, {bo.Y, bo.X}} {
+				kp := pidx(pr[1])
+				ld, isLd := pr[0].(*ssa.UnOp)
+				if kp < 0 || !isLd || ld.Op != token.MUL {
+					continue
+				}
+				ia, isIA := ld.X.(*ssa.IndexAddr)
+				if !isIA || ia.Index != v {
+					continue
+				}
+				sp := pidx(ia.X)
+				if sp < 0 {
+					continue
+				}
+				if sliceParam >= 0 && (sliceParam != sp || keyParam != kp) {
+					return 0, 0, 0, false
+				}
+				sliceParam, keyParam, found = sp, kp, true
+			}
+		}
+		if !found {
+			return 0, 0, 0, false
+		}
+	}
+	if !haveNF || sliceParam < 0 {
+		return 0, 0, 0, false
+	}
+	return sliceParam, keyParam, notFound, true
 }
